@@ -363,7 +363,8 @@ pub(crate) mod verif_local {
     }
 
     /// What `ReorderableItemKind::from` reads of an item: the syntactic kind (`e` extern crate,
-    /// `m` mod declaration, `u` use, `o` anything else), `contains_macro_use_attr`, `contains_skip`.
+    /// `m` mod declaration, `u` use, `o` anything else), `contains_macro_use_attr` and
+    /// `contains_skip`.
     pub(crate) fn item_facts(item: &ast::Item) -> (char, bool, bool) {
         let kind = match item.kind {
             ast::ItemKind::ExternCrate(..) => 'e',
